@@ -279,6 +279,12 @@ func (c06) Run(ts *tape.Set, tier Tier) *Result {
 			plans = append(plans, faultPlan{kind: k, targets: []cid.Cid{b}, kth: -1, after: int(planSeed>>uint(8*i)) & 0xffff})
 		}
 	}
+	for i, b := range order {
+		if b.Equals(entity) && !viaPath {
+			continue
+		}
+		plans = append(plans, faultPlan{kind: kinds[i%3], targets: []cid.Cid{b}, kth: -1, after: 11 * i, flavour: 1 + i%3})
+	}
 	for k := 1; k < nLoads; k++ {
 		plans = append(plans, faultPlan{kind: kinds[k%3], kth: k, after: 5 * k})
 	}
